@@ -463,6 +463,52 @@ static void generalCase1(const std::string& tag0, Rng& r) {
   hz::emit(tag + " pts=" + std::to_string(pts.size()) + " inAB=" + std::to_string(nAB) + " inAonly=" + std::to_string(nA) + " inBonly=" + std::to_string(nB) + " near=" + std::to_string(nearSkipped) + " volAB=" + std::to_string(R[2].Volume()), "", "", fail.empty(), fail);
 }
 
+
+// ------------------------------------------------------------------------------------------------ (d) many-operand unions
+// Unions of N > 1000 operands (the evaluator reduces a flattened Add node in chunks of 1000 and composes
+// bounding-box-disjoint operands without a Boolean): N pairwise disjoint axis-aligned pegs with generic sizes and
+// positions standing in `np` thin plates that each cross every peg (so a plate is alone in its disjoint set),
+// evaluated as BatchBoolean(Add) with the plates first / last / in the middle, as a += chain, and as the negative
+// side of a subtraction.  The exact volume is known by inclusion-exclusion over boxes (pegs are disjoint, plates
+// are disjoint, a peg meets a plate in a box) and every peg top / plate corner is a known interior point.
+struct BoxD { double lo[3], hi[3]; };
+static double volB(const BoxD& b) { return (b.hi[0] - b.lo[0]) * (b.hi[1] - b.lo[1]) * (b.hi[2] - b.lo[2]); }
+static double volInter(const BoxD& a, const BoxD& b) { double v = 1; for (int k = 0; k < 3; k++) { double l = std::max(a.lo[k], b.lo[k]), h = std::min(a.hi[k], b.hi[k]); if (h <= l) return 0; v *= h - l; } return v; }
+static Manifold solidOf(const BoxD& b) { return Manifold::Cube(vec3(b.hi[0] - b.lo[0], b.hi[1] - b.lo[1], b.hi[2] - b.lo[2])).Translate(vec3(b.lo[0], b.lo[1], b.lo[2])); }
+static void bigBatchCase(const std::string& tag, Rng& r, int N, int np, int layout, int mode) {
+  const int side = (int)std::ceil(std::sqrt((double)N)); const double W = 2.0 * side + 1;
+  std::vector<BoxD> pegs, plates;
+  for (int i = 0; i < N; i++) { BoxD b; double cx = 2.0 * (i % side) + rndIn(r, 0.3, 0.7), cy = 2.0 * (i / side) + rndIn(r, 0.3, 0.7), w = rndIn(r, 0.2, 0.5), d = rndIn(r, 0.2, 0.5);
+    b.lo[0] = cx - w; b.hi[0] = cx + w; b.lo[1] = cy - d; b.hi[1] = cy + d; b.lo[2] = -rndIn(r, 0.5, 0.9); b.hi[2] = rndIn(r, 1.2, 1.9); pegs.push_back(b); }
+  for (int j = 0; j < np; j++) { BoxD b; b.lo[0] = -1 - rndIn(r, 0, 0.3); b.lo[1] = -1 - rndIn(r, 0, 0.3); b.hi[0] = W + rndIn(r, 0, 0.3); b.hi[1] = W + rndIn(r, 0, 0.3);
+    b.lo[2] = 0.4 * j + rndIn(r, 0.01, 0.05); b.hi[2] = b.lo[2] + rndIn(r, 0.1, 0.2); plates.push_back(b); }
+  double want = 0; for (auto& b : pegs) want += volB(b); for (auto& q : plates) { want += volB(q); for (auto& b : pegs) want -= volInter(q, b); }
+  std::vector<Manifold> ops; std::vector<Manifold> P, Q; for (auto& b : pegs) P.push_back(solidOf(b)); for (auto& q : plates) Q.push_back(solidOf(q));
+  if (layout == 0) { ops = Q; ops.insert(ops.end(), P.begin(), P.end()); }
+  else if (layout == 1) { ops = P; ops.insert(ops.end(), Q.begin(), Q.end()); }
+  else { ops = P; for (auto& q : Q) ops.insert(ops.begin() + r.below(ops.size() + 1), q); }
+  Manifold R; double wantR = want; std::string what;
+  BoxD big; big.lo[0] = big.lo[1] = -3; big.hi[0] = big.hi[1] = W + 2; big.lo[2] = -2; big.hi[2] = 3;
+  if (mode == 0) { R = Manifold::BatchBoolean(ops, OpType::Add); what = "BatchBoolean(Add)"; }
+  else if (mode == 1) { R = ops[0]; for (size_t i = 1; i < ops.size(); i++) R += ops[i]; what = "+= chain"; }
+  else if (mode == 2) { R = solidOf(big) - Manifold::BatchBoolean(ops, OpType::Add); wantR = volB(big) - want; what = "big - BatchBoolean(Add)"; }
+  else { std::vector<Manifold> v = {solidOf(big)}; v.insert(v.end(), ops.begin(), ops.end()); R = Manifold::BatchBoolean(v, OpType::Subtract); wantR = volB(big) - want; what = "BatchBoolean(Subtract)"; }
+  std::string fail; char buf[300];
+  if (R.Status() != Manifold::Error::NoError) { snprintf(buf, sizeof buf, "%s of %d valid operands returned Status %d", what.c_str(), (int)ops.size(), (int)R.Status()); fail = buf; }
+  double got = fail.empty() ? R.Volume() : 0;
+  if (fail.empty() && std::fabs(got - wantR) > 1e-9 * std::max(1.0, std::fabs(wantR))) { snprintf(buf, sizeof buf, "%s of %d boxes: Volume=%.12g, inclusion-exclusion over the boxes gives %.12g", what.c_str(), (int)ops.size(), got, wantR); fail = buf; }
+  if (fail.empty()) {   // interior points: the top of every 7th peg, the corner region of every plate
+    std::vector<vec3> pts; std::vector<int> inside;
+    for (size_t i = 0; i < pegs.size(); i += 7) { pts.push_back(vec3((pegs[i].lo[0] + pegs[i].hi[0]) / 2, (pegs[i].lo[1] + pegs[i].hi[1]) / 2, pegs[i].hi[2] - 0.05)); inside.push_back(1); }
+    for (auto& q : plates) { pts.push_back(vec3(q.lo[0] + 0.1, q.lo[1] + 0.1, (q.lo[2] + q.hi[2]) / 2)); inside.push_back(1); pts.push_back(vec3(q.hi[0] - 0.1, q.hi[1] - 0.1, (q.lo[2] + q.hi[2]) / 2)); inside.push_back(1); }
+    pts.push_back(vec3(-2.5, -2.5, 2.5)); inside.push_back(0);
+    std::vector<int> w = R.WindingNumber(pts);
+    for (size_t i = 0; i < pts.size() && fail.empty(); i++) { bool in = mode >= 2 ? !inside[i] : inside[i];   // (the far corner is inside `big`)
+      if ((w[i] != 0) != in) { snprintf(buf, sizeof buf, "%s of %d boxes: point (%g,%g,%g) should be %s the result, WindingNumber=%d", what.c_str(), (int)ops.size(), pts[i].x, pts[i].y, pts[i].z, in ? "inside" : "outside", w[i]); fail = buf; } }
+  }
+  hz::emit(tag + " N=" + std::to_string(N) + " plates=" + std::to_string(np) + " layout=" + std::to_string(layout) + " mode=" + std::to_string(mode) + " tris=" + std::to_string(fail.empty() ? R.NumTri() : 0), "", "", fail.empty(), fail);
+}
+
 // ------------------------------------------------------------------------------------------------ operand pairs for the kernel tie
 static void kernelPairs(Rng& r, int n) {
   for (int i = 0; i < n; i++) {
@@ -506,6 +552,14 @@ int main(int argc, char** argv) {
     hz::emit("triples triple-summary evaluated=" + std::to_string(n) + " failed=" + std::to_string(bad) + (K == 0 ? " exhaustive" : " sampled"), "", "", true);
     printf("STATS triples=%ld triple_failures=%ld triples_exhaustive=%d\n", n, bad, K == 0 ? 1 : 0); return 0; }
   if (mode == "general") { int n = argc > 2 ? atoi(argv[2]) : 20; for (int i = 0; i < n; i++) generalCase("g" + std::to_string(i) + " general", r); return 0; }
+  if (mode == "bigbatch") {   // c02_bool bigbatch <level>   (0 quick, 1 thorough)  | c02_bool bigbatch N np layout mode
+    if (argc > 5) { bigBatchCase("g0 bigbatch", r, atoi(argv[2]), atoi(argv[3]), atoi(argv[4]), atoi(argv[5])); return 0; }
+    int level = argc > 2 ? atoi(argv[2]) : 0; int k = 0;
+    std::vector<int> Ns = level ? std::vector<int>{150, 998, 999, 1000, 1001, 1100, 2001, 2300} : std::vector<int>{998, 1001, 1100};
+    for (int N : Ns) for (int mode = 0; mode < 4; mode++) { if (!level && mode == 3 && N != 1100) continue;
+      int layout = (k + mode) % 3, np = 1 + (k % 2); if (mode == 1 && N > 1200 && !level) continue;
+      bigBatchCase("g" + std::to_string(k++) + " bigbatch", r, N, np, layout, mode); }
+    return 0; }
   if (mode == "replay" && argc > 2) { ExP e = parseAll(argv[2]); Verdict v = check(e, true); if (!v.inWindow) { hz::emit("r0 replay " + std::string(argv[2]), "", "", true, "outside-window"); return 0; }
     hz::emit("r0 replay " + std::string(argv[2]), "", "", v.ok, v.ok ? "" : "MIN " + std::string(argv[2]) + " OPS " + std::to_string(nOps(e)) + " :: " + v.msg); return 0; }
   if (mode == "inspect" && argc > 2) {   // per sub-expression: mesh size, off-lattice vertices, volume vs voxel count (diagnosis of a finding)
@@ -515,5 +569,5 @@ int main(int argc, char** argv) {
       printf("NODE %s : verts=%zu tris=%zu offLattice=%d%s genus=%d volume=%.12g voxels=%d\n", str(x).c_str(), (size_t)m.NumVert(), (size_t)m.NumTri(), off, offs.c_str(), m.Genus(), m.Volume(), (int)v.count()); };
     go(e); return 0; }
   if (mode == "minimize" && argc > 2) { ExP e = parseAll(argv[2]); latticeCase("m0 minimize", e); return 0; }
-  fprintf(stderr, "usage: c02_bool kern|lattice|pairs|general|replay|minimize ...\n"); return 2;
+  fprintf(stderr, "usage: c02_bool kern|lattice|pairs|general|bigbatch|replay|minimize ...\n"); return 2;
 }
